@@ -11,6 +11,9 @@
 #include <sys/types.h>
 #include <unistd.h>
 
+#include <sched.h>
+
+#include <atomic>
 #include <set>
 #include <string>
 #include <vector>
@@ -48,7 +51,7 @@ inline std::string plan_str(const Plan& p, bool cycle = false) {
 }
 
 struct ReadMon {
-  bool active = false;
+  std::atomic<bool> active{false};  // plan mode: only ever set while the process is single-threaded
   int fd = -1;  // -1: every descriptor read while active
   const uint32_t* plan = nullptr;
   size_t plan_len = 0;
@@ -71,13 +74,40 @@ inline ReadMon& rm() {
 }
 
 struct CloseMon {
-  bool active = false;
+  std::atomic<bool> active{false};  // only ever set while the process is single-threaded
   std::vector<int> closes;  // descriptor numbers passed to close(), in order
   int failures = 0;         // close() calls that returned -1 (EBADF: already closed)
 };
 inline CloseMon& cm() {
   static CloseMon m;
   return m;
+}
+
+// Schedule perturbation for the multi-threaded part: after an interposed read() has filled the caller's buffer, the
+// calling thread yields until some OTHER thread has completed a read too (bounded number of yields, never a time).
+// Correct code cannot observe this; code that shares the landing buffer between threads gets it overwritten.
+struct Rendezvous {
+  std::atomic<bool> on{false};
+  std::atomic<uint64_t> reads_done{0};
+  std::atomic<int> readers{0};  // threads currently inside a phosg call
+  std::atomic<uint64_t> waits{0}, met{0};
+};
+inline Rendezvous& rv() {
+  static Rendezvous r;
+  return r;
+}
+inline void rendezvous_after_read() {
+  Rendezvous& r = rv();
+  uint64_t t = r.reads_done.fetch_add(1, std::memory_order_relaxed) + 1;
+  r.waits.fetch_add(1, std::memory_order_relaxed);
+  for (int spin = 0; spin < 400; spin++) {
+    if (r.reads_done.load(std::memory_order_relaxed) != t) {
+      r.met.fetch_add(1, std::memory_order_relaxed);
+      return;
+    }
+    if (r.readers.load(std::memory_order_relaxed) < 2) return;
+    sched_yield();
+  }
 }
 
 // RAII activation of a plan for one descriptor (or all descriptors when fd < 0).
@@ -199,7 +229,12 @@ extern "C" {
 
 ssize_t __wrap_read(int fd, void* buf, size_t n) {
   io::ReadMon& m = io::rm();
-  if (!m.active || (m.fd >= 0 && fd != m.fd)) return __real_read(fd, buf, n);
+  if (!m.active.load(std::memory_order_relaxed)) {
+    ssize_t r0 = __real_read(fd, buf, n);
+    if (r0 > 0 && io::rv().on.load(std::memory_order_relaxed)) io::rendezvous_after_read();
+    return r0;
+  }
+  if (m.fd >= 0 && fd != m.fd) return __real_read(fd, buf, n);
   size_t lim = m.limit(m.calls++);
   size_t ask = (lim && n > lim) ? lim : n;
   ssize_t r = __real_read(fd, buf, ask);
@@ -232,7 +267,7 @@ ssize_t __wrap_pread64(int fd, void* buf, size_t n, off_t off) { return c14_prea
 int __wrap_close(int fd) {
   io::CloseMon& m = io::cm();
   int r = __real_close(fd);
-  if (m.active) {
+  if (m.active.load(std::memory_order_relaxed)) {
     m.closes.push_back(fd);
     if (r != 0) m.failures++;
   }
